@@ -64,7 +64,7 @@ impl Check for IdentityCheck {
         "C32"
     }
     fn budget(&self, tier: &str) -> usize {
-        if tier == "thorough" { 600_000 } else { 30_000 }
+        if tier == "thorough" { 1_500_000 } else { 30_000 }
     }
     fn gen_case(&self, seed: u64, _idx: usize, _tier: &str, avoid: &[String]) -> Case {
         let mut rng = Rng::new(seed, "workload");
@@ -362,7 +362,7 @@ impl Check for LimitsCheck {
         "C33"
     }
     fn budget(&self, tier: &str) -> usize {
-        if tier == "thorough" { 600_000 } else { 30_000 }
+        if tier == "thorough" { 1_000_000 } else { 30_000 }
     }
     fn gen_case(&self, seed: u64, idx: usize, _tier: &str, _avoid: &[String]) -> Case {
         let mut rng = Rng::new(seed, "workload");
